@@ -272,7 +272,18 @@ def served_case():
         "events": st.lists(st.tuples(st.sampled_from([0, 0, 0.25, 1, 3]), st.sampled_from(["a", "a", "b", "c"]),
                                      st.sampled_from(["stay", "stay", "gone-at-once", "gone-later"]), st.booleans()),
                            min_size=2, max_size=30),
+        # how the limiter sits in front of the handlers: in a MiddlewareChain (as start_server builds it), handed to the
+        # protocol directly (it has the same process_request interface), or in a chain behind the PyOpenSSL TLS layer
+        "wiring": st.sampled_from(["chain", "chain", "bare", "pyopenssl"]),
     })
+
+
+class _Plain:
+    def __init__(self, data):
+        self._d = data
+
+    def written(self):
+        return self._d
 
 
 def run_served(case: dict):
@@ -293,7 +304,8 @@ def run_served(case: dict):
         mwmod.time = _Clock(loop)
         try:
             rl = RateLimiter(RateLimitConfig(capacity=cap, refill_rate=float(rate), retry_after=30))
-            chain = MiddlewareChain([rl])
+            wiring = case.get("wiring", "chain")
+            chain = rl if wiring == "bare" else MiddlewareChain([rl])
             sim = srvsim.Sim(loop)
             handler = srvsim.build_handler(sim, {"kind": "value", "status": 20, "meta": "text/gemini", "body": "x"})
             up = srvsim.build_upload(sim, {"kind": "value", "status": 20, "meta": "text/gemini", "body": "STORED"})
@@ -301,9 +313,21 @@ def run_served(case: dict):
             for i, (dt, who, beh, titan) in enumerate(case["events"]):
                 if dt:
                     await asyncio.sleep(dt)
+                req = f"titan://localhost/f{i};size=1;token={who}\r\nX".encode() if titan else f"gemini://localhost/{i}?{who}\r\n".encode()
+                if wiring == "pyopenssl":
+                    # the same chain behind the real PyOpenSSL TLS layer (peers stay until they are answered)
+                    from vlib import memnet, stacks
+
+                    factory, sslctx = stacks.manual_stack("pyopenssl", handler, chain, up)
+                    conn = memnet.ServerConn(loop, factory, sslctx, memnet.permissive_client_ctx(), peername=(ADDR[who], 40000 + i))
+                    if await conn.handshake():
+                        await conn.request(req)
+                        await conn.pump()
+                    trs.append(_Plain(bytes(conn.client.plain)))
+                    continue
                 tr = FakeTransport(loop, peername=(ADDR[who], 40000 + i))
                 tr.attach(GeminiServerProtocol(handler, chain, up))
-                tr.feed(f"titan://localhost/f{i};size=1;token={who}\r\nX".encode() if titan else f"gemini://localhost/{i}?{who}\r\n".encode())
+                tr.feed(req)
                 if beh == "gone-at-once":
                     tr.peer_disconnect(ConnectionResetError(104, "reset"))
                 await vloop.settle(4)
@@ -333,7 +357,10 @@ def run_served(case: dict):
                                 f"address {who}: {j - i + 1} requests reached a handler within {float(ts[j] - ts[i])} s; capacity {cap}, "
                                 f"refill {rate}/s allow at most {float(cap + rate * (ts[j] - ts[i]))}", **info)
     seen = set()
+    stays = case.get("wiring") == "pyopenssl"
     for tr, ev in zip(trs, case["events"]):
+        if stays:
+            ev = (ev[0], ev[1], "stay", ev[3])
         S = tr.written()
         if ev[1] not in seen:
             seen.add(ev[1])
@@ -383,7 +410,8 @@ LANES = [
          rule="random histories up to 200 arrivals (bursts up to 3) over 3 addresses spanning several clean-up periods"),
     Lane(name="served", run_case=run_served, strategy=served_case, budget={"quick": 3200, "thorough": 60000},
          shards={"quick": 16, "thorough": 32}, nontrivial=lambda c, v: v.info.get("refusals", 0) > 0 or v.kind == "violation",
-         labels=lambda c, v: ["has-refusal" if v.info.get("refusals") else "no-refusal", "peer-gone" if v.info.get("gone") else "all-stay"],
+         labels=lambda c, v: ["has-refusal" if v.info.get("refusals") else "no-refusal", "peer-gone" if v.info.get("gone") else "all-stay",
+                              "wiring:" + c.get("wiring", "chain")],
          rule="the real RateLimiter in the chain of the real protocol, Gemini and Titan requests, peers that hang up at "
               "once or later; admitted = reached a handler; window bound on handler invocation times"),
 ]
